@@ -295,6 +295,11 @@ func Sink(kind string, b []byte) { sinks = append(sinks, append([]byte{}, b...))
 // NoLeak asserts that nothing written to a sink depends on a secret. Symbolically this is a non-interference
 // query; natively it is the weaker check that no sink contains a secret as a contiguous window.
 func NoLeak(id string) {
+	load()
+	if strings.HasPrefix(model.Expect, "sample") {
+		// path samples carry arbitrary (often all-zero) values, for which window containment says nothing
+		return
+	}
 	for _, s := range secrets {
 		for _, k := range sinks {
 			if len(s) > 0 && bytes.Contains(k, s) {
